@@ -5,34 +5,6 @@ import XmlRsModel.Dom
 namespace Driver
 open XmlRs XmlRs.Dom
 
-/-- initial state from a parsed document (raw view): ids = handles in pre-order (node, its attributes
-    with their value items, its children) -/
-partial def buildNode (next : Nat) : Item → Node × Nat
-  | .text s => (.mk next .text s [] [], next + 1)
-  | .cdata s => (.mk next .cdata s [] [], next + 1)
-  | .comment s => (.mk next .comment s [] [], next + 1)
-  | .pi t d => (.mk next (.pi t) (d.getD []) [] [], next + 1)
-  | .charRef d h => (.mk next (.ref ((if h then "&#x".toList else "&#".toList) ++ d ++ [';'])) [] [] [], next + 1)
-  | .entRef n => (.mk next (.ref n) [] [] [], next + 1)
-  | .elem q attrs kids =>
-      let id := next
-      let (as, n1) := attrs.foldl (fun (acc : List Node × Nat) a =>
-        let (items, n') := mkItems (acc.2 + 1) a.vals
-        (acc.1 ++ [Node.mk acc.2 (.attr a.name.text true) [] [] items], n')) ([], next + 1)
-      let (ks, n2) := kids.foldl (fun (acc : List Node × Nat) k =>
-        let (x, n') := buildNode acc.2 k
-        (acc.1 ++ [x], n')) ([], n1)
-      (.mk id (.elem q.text) [] as ks, n2)
-
-def buildSt (d : IDoc) : St :=
-  let (ks, n) := d.kids.foldl (fun (acc : List Node × Nat) t =>
-    match t with
-    | .comment s => (acc.1 ++ [Node.mk acc.2 .comment s [] []], acc.2 + 1)
-    | .pi t x => (acc.1 ++ [Node.mk acc.2 (.pi t) (x.getD []) [] []], acc.2 + 1)
-    | .doctype x => (acc.1 ++ [Node.mk acc.2 (.doctype x.name.text) [] [] []], acc.2 + 1)
-    | .elem e => let (x, n') := buildNode acc.2 e; (acc.1 ++ [x], n')) ([], 1)
-  { doc := .mk 0 .doc [] [] ks, detached := [], next := n, handles := (List.range n).map some }
-
 def hOf (s : St) (id : Nat) : String :=
   match s.handles.idxOf? (some id) with
   | some i => s!"h{i}"
